@@ -1709,16 +1709,18 @@ func (s *BgpServer) handleFSMMessage(peer *peer, e *fsmMsg) {
 				peer.stopPeerRestarting()
 			}
 
-			// Always clear EndOfRibReceived state on PeerDown
+			// Always clear EndOfRibReceived state on PeerDown.
+			// A fresh variable: the address of conf may have been published
+			// by pConf.Update above, so conf must not be written again.
 			peer.fsm.lock.Lock()
-			conf = peer.fsm.pConf.ReadCopy()
-			for i, af := range conf.AfiSafis {
+			downConf := peer.fsm.pConf.ReadCopy()
+			for i, af := range downConf.AfiSafis {
 				if slices.Contains(gracefulFamilies, af.State.Family) {
-					conf.AfiSafis[i].MpGracefulRestart.State.Running = true
+					downConf.AfiSafis[i].MpGracefulRestart.State.Running = true
 				}
-				conf.AfiSafis[i].MpGracefulRestart.State.EndOfRibReceived = false
+				downConf.AfiSafis[i].MpGracefulRestart.State.EndOfRibReceived = false
 			}
-			peer.fsm.pConf.Update(&conf)
+			peer.fsm.pConf.Update(&downConf)
 			peer.prefixLimitWarned = make(map[bgp.Family]bool)
 			peer.fsm.lock.Unlock()
 
